@@ -466,3 +466,149 @@ Definition c10_cache_case (hasw : bool) (patches : list (list obj)) (hist : list
     forallb (fun x => opt_eqb trees_eqb (entry_trees (snd (fst x))) (snd x) || centry_eqb (snd (fst x)) (fst (fst x)))
             (combine (combine obs_pre obs_post) spec_post)
   ].
+
+(* ---------- extreme binnings (C10, 'large' family): 1 bin ... 10^5 bins ----------
+   The edge array is described piecewise, lo and a list of segments (step, count): `count` further
+   edges, each `step` above the previous one (one segment = a linear binning, several = very
+   narrow bins next to very wide ones); the list of edges is built here, the harness never writes
+   10^5 literals.  Observations are sparse: (number of bins reported, [(bin, value)] for the bins
+   whose value is not the empty one), every bin that is not listed was reported empty. *)
+Definition seg := (Q * nat)%type.
+Fixpoint seg_run (start step : Q) (k : Z) (n : nat) : list Q :=
+  match n with
+  | O => []
+  | S n' => (start + inject_Z k * step) :: seg_run start step (k + 1)%Z n'
+  end.
+Fixpoint seg_edges_from (start : Q) (segs : list seg) : list Q :=
+  match segs with
+  | [] => []
+  | (step, n) :: r =>
+      seg_run start step 1 n ++ seg_edges_from (Qred (start + inject_Z (Z.of_nat n) * step)) r
+  end.
+Definition seg_edges (lo : Q) (segs : list seg) : list Q := Qred lo :: seg_edges_from lo segs.
+Definition segs_ok (segs : list seg) : bool :=
+  forallb (fun s : seg => Qltb 0 (fst s) && (0 <? snd s)%nat) segs && negb (length segs =? 0)%nat.
+Definition segs_count (segs : list seg) : nat := fold_right (fun s acc => (snd s + acc)%nat) 0%nat segs.
+
+(* np.digitize once per object, as a binary integer (no unary index of size 10^5 per comparison) *)
+Fixpoint digitize_z (right : bool) (edges : list Q) (z : Q) (acc : Z) : Z :=
+  match edges with
+  | [] => acc
+  | e :: r => if passb right e z then digitize_z right r z (acc + 1)%Z else acc
+  end.
+(* the same index without comparing z with every edge: the edges are cut into chunks; while the first
+   edge of the NEXT chunk still passes, the whole chunk passes (increasing edges) and is skipped *)
+Fixpoint chunks_of (k i : nat) (acc : list Q) (l : list Q) : list (list Q) :=
+  match l with
+  | [] => [rev_append acc []]
+  | x :: r => match i with
+              | O => rev_append acc [] :: chunks_of k k [x] r
+              | S i' => chunks_of k i' (x :: acc) r
+              end
+  end.
+Fixpoint digitize_ch (right : bool) (chunks : list (list Q)) (z : Q) (acc : Z) : Z :=
+  match chunks with
+  | [] => acc
+  | c :: r =>
+      match r with
+      | (e' :: _) :: _ =>
+          if passb right e' z then digitize_ch right r z (acc + Z.of_nat (length c))%Z
+          else digitize_z right c z acc
+      | _ => digitize_z right (concat chunks) z acc
+      end
+  end.
+Definition chunk_size : nat := 256.
+Definition ixz (cr : bool) (chunks : list (list Q)) (objs : list obj) : list Z :=
+  map (fun o => digitize_ch cr chunks (oz o) 0%Z) objs.
+(* groupby(bin_idx, chunk) with the indices already computed *)
+Definition group_z (ix : list Z) (objs : list obj) (i : Z) : list obj :=
+  map snd (filter (fun p => (fst p =? i)%Z) (combine ix objs)).
+Definition keep_z (nb i : Z) : bool := (0 <? i)%Z && (i <=? nb)%Z.
+(* trees.get(b + 1, empty_tree) *)
+Definition tree_z (hasw : bool) (nb : Z) (ix : list Z) (objs : list obj) (b : Z) : tree :=
+  match group_z ix objs (b + 1)%Z with
+  | [] => dummy_tree
+  | g => if keep_z nb (b + 1)%Z then make_tree hasw g else dummy_tree
+  end.
+Definition wsum_z (hasw : bool) (nb : Z) (ix : list Z) (objs : list obj) (b : Z) : Q :=
+  snd (tree_z hasw nb ix objs b).
+
+(* sparse observation: the value reported for bin b *)
+Fixpoint zlookup {A} (d : A) (b : Z) (s : list (Z * A)) : A :=
+  match s with
+  | [] => d
+  | e :: r => if (fst e =? b)%Z then snd e else zlookup d b r
+  end.
+(* every listed bin holds the model's value, and every bin some object is sent to (index i = bin + 1,
+   also the indices 0 and nbins + 1 of objects outside the binning: nothing may be listed there)
+   is reported with the model's value: the two together fix ALL bins (sparse_ok_sound) *)
+Definition sparse_ok {A} (eqb : A -> A -> bool) (d : A) (f : Z -> A) (ix : list Z) (s : list (Z * A)) : bool :=
+  forallb (fun e => eqb (snd e) (f (fst e))) s &&
+  forallb (fun i => eqb (zlookup d (i - 1)%Z s) (f (i - 1)%Z)) ix.
+Definition sobs (A : Type) := (Z * list (Z * A))%type.
+Definition strees_ok (hasw : bool) (nb : Z) (ix : list Z) (objs : list obj) (o : sobs tree) : bool :=
+  (fst o =? nb)%Z && sparse_ok tree_eqb dummy_tree (tree_z hasw nb ix objs) ix (snd o).
+Definition swsums_ok (hasw : bool) (nb : Z) (ix : list Z) (objs : list obj) (o : sobs Q) : bool :=
+  (fst o =? nb)%Z && sparse_ok Qeqb 0 (wsum_z hasw nb ix objs) ix (snd o).
+
+(* the statement itself, evaluated on the listed bins only: the objects with lo < z <= hi resp.
+   lo <= z < hi for the two edges of the bin, and a balance over the whole binning: what the listed
+   bins hold together is what lies between the outer edges (weights are positive) *)
+Definition in_bin (cr : bool) (l h z : Q) : bool :=
+  if cr then Qltb l z && Qleb z h else Qleb l z && Qltb z h.
+Definition spec_tree_at (hasw cr : bool) (edges : list Q) (objs : list obj) (b : Z) : tree :=
+  let k := Z.to_nat b in
+  let l := edge edges k in
+  let h := edge edges (S k) in
+  make_tree hasw (filter (fun o => in_bin cr l h (oz o)) objs).
+Definition inside_objs (cr : bool) (edges : list Q) (objs : list obj) : list obj :=
+  let l := ehd edges in
+  let h := elast edges in
+  filter (fun o => in_bin cr l h (oz o)) objs.
+Fixpoint ascending_from (lo nb : Z) (ks : list Z) : bool :=
+  match ks with
+  | [] => true
+  | k :: r => (lo <=? k)%Z && (k <? nb)%Z && ascending_from (k + 1)%Z nb r
+  end.
+Definition strees_spec (hasw cr : bool) (edges : list Q) (nb : Z) (objs : list obj) (o : sobs tree) : bool :=
+  (fst o =? nb)%Z && ascending_from 0 nb (map fst (snd o)) &&
+  forallb (fun e => tree_eqb (snd e) (spec_tree_at hasw cr edges objs (fst e))) (snd o) &&
+  tree_eqb (fold_right (fun e acc => ((fst (snd e) + fst acc)%nat, Qred (snd (snd e) + snd acc))) dummy_tree (snd o))
+           (make_tree hasw (inside_objs cr edges objs)).
+Definition swsums_spec (hasw cr : bool) (edges : list Q) (nb : Z) (objs : list obj) (o : sobs Q) : bool :=
+  (fst o =? nb)%Z && ascending_from 0 nb (map fst (snd o)) &&
+  forallb (fun e => Qeqb (snd e) (snd (spec_tree_at hasw cr edges objs (fst e)))) (snd o) &&
+  Qeqb (qsumr (map snd (snd o))) (wsum hasw (inside_objs cr edges objs)).
+
+Definition all2b {A B} (p : A -> B -> bool) (l1 : list A) (l2 : list B) : bool :=
+  (length l1 =? length l2)%nat && forallb (fun x => p (fst x) (snd x)) (combine l1 l2).
+
+(* one case: closed side, weight column?, edges = seg_edges lo segs, number of bins as configured,
+   objects per patch; observed (sparse): per patch the trees or None (build_trees raised), the
+   histogram or None (raised), optionally per patch the column of CorrFunc.dd.sum_weights.sum_weights1
+   flags: 0 trees = model (digitize, groupby, keep 0 < i <= nbins, dummy trees)
+          1 trees = the closed-side rule evaluated directly on the listed bins + balance
+          2 histogram = model            3 histogram = the rule evaluated directly + balance
+          4 measurement sum_weights = model (when observed)      5 ... = the rule evaluated directly
+          6 hypotheses: every segment has a positive step and a positive count, at least one segment
+            (so the edges are strictly increasing and >= 2: seg_edges_valid, proved, not evaluated),
+            as many bins as configured *)
+Definition c10_big_case (cr hasw : bool) (lo : Q) (segs : list seg) (nbz : Z) (patches : list (list obj))
+    (trees : list (option (sobs tree))) (hist : option (sobs Q)) (meas : option (list (sobs Q))) : nat :=
+  let edges := seg_edges lo segs in
+  let nb := Z.of_nat (nbins edges) in
+  let chunks := chunks_of chunk_size chunk_size [] edges in
+  let ixs := map (ixz cr chunks) patches in
+  let pix := combine ixs patches in
+  let all := concat patches in
+  let ixall := concat ixs in
+  code [
+    all2b (fun t x => match t with Some o => strees_ok hasw nb (fst x) (snd x) o | None => false end) trees pix;
+    all2b (fun t objs => match t with Some o => strees_spec hasw cr edges nb objs o | None => false end) trees patches;
+    match hist with Some o => swsums_ok hasw nb ixall all o | None => false end;
+    match hist with Some o => swsums_spec hasw cr edges nb all o | None => false end;
+    match meas with Some m => all2b (fun o x => swsums_ok hasw nb (fst x) (snd x) o) m pix | None => true end;
+    match meas with Some m => all2b (fun o objs => swsums_spec hasw cr edges nb objs o) m patches | None => true end;
+    segs_ok segs && (nb =? nbz)%Z
+  ].
+
